@@ -27,7 +27,7 @@ EXPLANATION = (
 NOT_DECIDED = ["that unit k holds the text of page k", "heading-section units of docx/doc/odt (text partition is value level)", "mbox message boundaries (regex semantics)",
                "legacy PPT slide lists: text-less slides are dropped when any slide has text (open known finding)"]
 TRUSTED = ["pypdf reader.pages, openpyxl sheetnames, xlrd sheets(), ElementTree findall enumerate the source units in order", "CFG path enumeration"]
-FLOORS = {"C03-FILT": 2, "C03-JOIN": 11, "C03-NUM": 25, "C03-FILL": 8, "C03-SEP": 36, "C03-COVER": 6, "C03-KIND": 1}
+FLOORS = {"C03-FILT": 2, "C03-JOIN": 11, "C03-NUM": 25, "C03-FILL": 8, "C03-SEP": 36, "C03-COVER": 6, "C03-KIND": 1, "C03-PART": 5}
 
 JOIN_CLASSES = ["PdfContent", "PptxContent", "OdpContent", "XlsxContent", "OdsContent", "EpubContent", "HtmlContent", "PlainTextContent", "EmailContent", "OdgContent", "OdfContent"]
 # content class -> (collection, how the number is obtained in iterate_units: 'enumerate' | '<field on element>')
@@ -541,4 +541,136 @@ def rule_kind(ctx: Ctx) -> RuleReport:
     return rep
 
 
-RULES = [rule_join, rule_num, rule_fill, rule_filt, rule_cover, rule_sep, rule_kind]
+# ----------------------------------------------------------------------------------------------- PART
+STRING_PREDICATES = {"startswith", "endswith", "lower", "casefold", "find", "index", "count"}
+
+
+def _text_predicates(fn_node, roots: set[str]):
+    """Tests in fn that are predicates on the characters of a name in `roots` (or of locals computed from it): startswith / == literal / `lit in x` / regex."""
+    derived = set(roots)
+    changed = True
+    while changed:
+        changed = False
+        for a in ast.walk(fn_node):
+            if isinstance(a, ast.Assign) and len(a.targets) == 1 and isinstance(a.targets[0], ast.Name) and a.targets[0].id not in derived and any(isinstance(x, ast.Name) and x.id in derived for x in ast.walk(a.value)):
+                derived.add(a.targets[0].id)
+                changed = True
+    out = []
+    for i in [n for n in ast.walk(fn_node) if isinstance(n, (ast.If, ast.IfExp))]:
+        for t in ast.walk(i.test):
+            if isinstance(t, ast.Call) and isinstance(t.func, ast.Attribute) and t.func.attr in ("startswith", "endswith") and isinstance(t.func.value, ast.Name) and t.func.value.id in derived:
+                out.append((i, t))
+            elif isinstance(t, ast.Compare) and len(t.ops) == 1 and isinstance(t.ops[0], (ast.Eq, ast.In)) and any(isinstance(x, ast.Name) and x.id in derived for x in [t.left] + t.comparators) \
+                    and any(isinstance(x, ast.Constant) and isinstance(x.value, str) and x.value for x in [t.left] + t.comparators):
+                out.append((i, t))
+    return out
+
+
+def rule_part(ctx: Ctx) -> RuleReport:
+    """Heading-section units (docx / doc / odt): which paragraphs form a unit is value level, but three structural necessities are decided:
+    collected text is never discarded by the flush, headings are recognised from structure (style / outline level) and not from the wording
+    of the paragraph, and a paragraph is left out of the unit text only on a mark set by the reader, not on a guess from its style name."""
+    rep = RuleReport("C03-PART", "heading-section units cover the body: the flush never discards collected lines, headings are not guessed from the wording, paragraphs are not skipped on a style-name guess")
+    m = ctx.p.module(DT)
+    # (a) the flush helper of each heading-based iterate_units: every exit without a unit is under a test that the collected text is empty
+    for cls in ("DocxContent", "DocContent", "OdtContent"):
+        it = ctx.p.maybe_func(DT, f"{cls}.iterate_units")
+        if it is None:
+            raise AnalysisError(f"C03-PART: {cls}.iterate_units vanished")
+        fl = next((g for g in m.functions.values() if g.parent is it and g.name == "flush_current"), None)
+        if fl is None:
+            raise AnalysisError(f"C03-PART: {cls}.iterate_units no longer has a flush_current helper")
+        rep.unit(fl.key)
+        emits = [c for c in ast.walk(fl.node) if isinstance(c, ast.Call) and (dotted(c.func) or "").endswith("Unit")]
+        if not emits:
+            raise AnalysisError(f"C03-PART: {fl.qual} builds no unit")
+        text_names = {"text", "current_lines"}
+        for r in [x for x in walk_own(fl.node) if isinstance(x, ast.Return)]:
+            if any(any(y is e for y in ast.walk(r)) for e in emits):
+                continue
+            conds, opaque, _ = path_conditions(fl.node, r)
+            cs = [str(c) for c in conds] + list(opaque)
+            def needs_empty_text(e, positive=True) -> bool:
+                """Does the truth of the condition require a test on the collected text? (a disjunction requires it in every arm)"""
+                if isinstance(e, ast.UnaryOp) and isinstance(e.op, ast.Not):
+                    return needs_empty_text(e.operand, not positive)
+                if isinstance(e, ast.BoolOp):
+                    conj = isinstance(e.op, ast.And) == positive
+                    parts = [needs_empty_text(v, positive) for v in e.values]
+                    return any(parts) if conj else all(parts)
+                return any(isinstance(x, ast.Name) and x.id in text_names for x in ast.walk(e))
+
+            tests_text = any(needs_empty_text(ast.parse(c, mode="eval").body) for c in cs if _parses(c))
+            # `V is None` where V copies a variable that is set (to a paragraph index) in the same block as every later assignment of the
+            # heading path: with a heading path present the variable is never None, the exit is unreachable
+            unreachable = False
+            loc = {a.targets[0].id: a.value for a in walk_own(fl.node) if isinstance(a, ast.Assign) and len(a.targets) == 1 and isinstance(a.targets[0], ast.Name)}
+            if any(c == "current_heading_path" for c in cs):
+                for c in cs:
+                    mm_ = c.split(" is None")[0] if c.endswith(" is None") else None
+                    src_ = loc.get(mm_)
+                    if isinstance(src_, ast.Name):
+                        blocks = [b for n_ in ast.walk(it.node) for b in [getattr(n_, "body", None), getattr(n_, "orelse", None)] if isinstance(b, list)]
+                        hp = [b for b in blocks if any(isinstance(x, ast.Assign) and any(norm(t) == "current_heading_path" for t in x.targets) and not (isinstance(x.value, ast.List) and not x.value.elts) for x in b) and b is not it.node.body]
+                        if hp and all(any(isinstance(x, ast.Assign) and any(norm(t) == src_.id for t in x.targets) and not (isinstance(x.value, ast.Constant) and x.value.value is None) for x in b) for b in hp):
+                            unreachable = True
+            if tests_text:
+                rep.ok({"flush": fl.qual, "exit_without_unit_under": cs})
+            elif unreachable:
+                rep.ok({"flush": fl.qual, "exit_without_unit_under": cs, "unreachable": "the tested variable is set wherever the heading path is"})
+            else:
+                rep.fail(Finding("C03-PART", DT, fl.qual, "collected lines discarded when " + (" and ".join(anorm(ast.parse(c, mode='eval').body, fl.node) if _parses(c) else c for c in cs) or "always"),
+                                 f"{fl.qual} returns without a unit under `{' and '.join(cs) or 'no condition'}`, whatever has been collected: the paragraphs in front of the first heading (title, abstract, table of contents) are in no unit although get_full_text() contains them", line=r.lineno))
+    # (b) headings from structure, not from the wording of the paragraph
+    for cls in ("DocxContent", "DocContent", "OdtContent"):
+        it = ctx.p.func(DT, f"{cls}.iterate_units")
+        for g in [x for x in m.functions.values() if x.parent is it and "heading" in x.name and x.name != "flush_current"]:
+            rep.unit(g.key)
+            prm = {a.arg for a in g.node.args.args}
+            rets_level = any(isinstance(r, ast.Return) and isinstance(r.value, ast.Constant) and isinstance(r.value.value, int) for r in walk_own(g.node))
+            preds = _text_predicates(g.node, prm)
+            # which attribute of the paragraph is handed over at the call sites
+            fed = {norm(c.args[0]) for c in ast.walk(it.node) if isinstance(c, ast.Call) and isinstance(c.func, ast.Name) and c.func.id == g.name and c.args}
+            by_text = any(not ("style" in f or "outline" in f or "level" in f) for f in fed)
+            if preds and rets_level and by_text:
+                rep.fail(Finding("C03-PART", DT, g.qual, "heading guessed from wording: " + "; ".join(sorted({anorm(t, g.node) for _, t in preds}))[:120],
+                                 f"{g.qual} decides from the words of the paragraph ({', '.join(sorted({short(t, 30) for _, t in preds}))}) that it is a heading: an ordinary sentence that begins that way is taken out of the unit text and out of get_full_text()", line=g.node.lineno))
+            else:
+                rep.ok({"heading_test": g.qual, "reads": sorted(fed)})
+    # (c) ODT: a paragraph is skipped (its text appended to no unit) only on structure
+    it = ctx.p.func(DT, "OdtContent.iterate_units")
+    rep.unit(it.key)
+    loop = next((l for l in walk_own(it.node) if isinstance(l, ast.For) and norm(l.iter) == "self.paragraphs"), None)
+    if loop is None:
+        raise AnalysisError("C03-PART: OdtContent.iterate_units no longer loops over self.paragraphs")
+    LV = loop.target.id if isinstance(loop.target, ast.Name) else "paragraph"
+    style_vars = {a.targets[0].id for a in ast.walk(loop) if isinstance(a, ast.Assign) and len(a.targets) == 1 and isinstance(a.targets[0], ast.Name) and "style_name" in norm(a.value)}
+    guess = [(i, t) for i, t in _text_predicates(ast.Module(body=loop.body, type_ignores=[]), style_vars) ]
+    flags = {a.targets[0].id for a in ast.walk(loop) if isinstance(a, ast.Assign) and len(a.targets) == 1 and isinstance(a.targets[0], ast.Name) and any(any(x is t for x in ast.walk(a.value)) for _, t in guess)}
+    guess_assign = [a for a in ast.walk(loop) if isinstance(a, ast.Assign) and len(a.targets) == 1 and isinstance(a.targets[0], ast.Name) and a.targets[0].id not in style_vars
+                    and any(isinstance(x, ast.Call) and isinstance(x.func, ast.Attribute) and x.func.attr in ("startswith", "endswith") and isinstance(x.func.value, ast.Name) and x.func.value.id in style_vars for x in ast.walk(a.value))]
+    flags |= {a.targets[0].id for a in guess_assign}
+    skipped = False
+    for cnt in [c for c in ast.walk(loop) if isinstance(c, ast.Continue)]:
+        conds, opaque, _ = path_conditions(it.node, cnt, terminals=("continue", "return", "break", "raise"))
+        cs = [str(c) for c in conds] + list(opaque)
+        if any(c in flags or any(v in c.split() for v in flags) or any(f"{v}.startswith" in c for v in style_vars) for c in cs):
+            skipped = True
+            src = guess_assign[0] if guess_assign else None
+            rep.fail(Finding("C03-PART", DT, it.qual, "paragraph skipped on a style-name guess: " + (anorm(src.value, it.node) if src is not None else " and ".join(cs))[:120],
+                             f"a paragraph whose style name looks like a table style (`{short(src.value, 60) if src is not None else ' and '.join(cs)}`) is appended to no unit: LibreOffice's caption style is called 'Table', so every table caption is missing from the units although get_full_text() contains it", line=cnt.lineno))
+            break
+    if not skipped:
+        rep.ok({"odt_paragraph_skips": "none on a style-name guess"})
+    return rep
+
+
+def _parses(c: str) -> bool:
+    try:
+        ast.parse(c, mode="eval")
+        return True
+    except SyntaxError:
+        return False
+
+
+RULES = [rule_join, rule_num, rule_fill, rule_filt, rule_cover, rule_sep, rule_kind, rule_part]
